@@ -498,6 +498,47 @@ def _first_error(msg):
     return {"sig": sig}
 
 
+def count_faults(scenarios, counters):
+    """Fault kinds injected by the scenarios that ran (every operation of a scenario executes, so armed = fired)."""
+    def c(k, n=1):
+        counters["fault." + k] = counters.get("fault." + k, 0) + n
+
+    for ops in scenarios:
+        delivers = 0
+        stream_kind = None
+        for op in ops:
+            k = op["op"]
+            if k == "alloc":
+                if op.get("base", 0) % 8:
+                    c("misaligned_buffer_base")
+                if op.get("content") not in (None, "valid"):
+                    c("buffer_" + op["content"])
+            elif k == "note":
+                if op.get("content") not in (None, "valid"):
+                    c("buffer_" + op["content"])
+            elif k == "deliver":
+                delivers += 1
+            elif k == "flip":
+                c("bit_flip_between_observations")
+            elif k == "null":
+                c("null_view")
+            elif k == "channel":
+                c("text_channel_" + op["kind"])
+            elif k == "restore_literal" and op.get("corrupted"):
+                c("text_literal_corrupted")
+            elif k == "observe" and op.get("stream"):
+                stream_kind = op["stream"].get("kind")
+            elif k == "copy":
+                if op["arena"] == op["src"]:
+                    c("copy_within_one_arena")
+                if op["len"] < op["slen"]:
+                    c("copy_destination_shorter_than_source_buffer")
+        if stream_kind and stream_kind != "valid":
+            c("stream_" + stream_kind)
+        if delivers > 1:
+            c("stream_split_into_chunks", delivers)
+
+
 def draw_build(rng):
     return {"std": rng.choice([11, 14, 17]), "no_opt": rng.random() < 0.3, "aligned": rng.choice([0, 0, 0, 4, 8])}
 
@@ -512,6 +553,8 @@ def run_one(task):
     workdir = os.path.join(task["scratch"], f"run{index}")
     t0 = time.monotonic()
     failures, counters, info = execute(module, build, list(WANT[prop]), scenarios, prop, workdir)
+    if counters.get("modules_built"):
+        count_faults(scenarios, counters)
     own = [f for f in failures if f["property"] == prop]
     other = [f for f in failures if f["property"] != prop]
     for f in other:
@@ -523,7 +566,8 @@ def run_one(task):
         "index": index, "digest": core.digest_of(log), "features": module.features, "build": build,
         "stage": info["stage"], "counters": counters, "failures": own, "wall": time.monotonic() - t0,
         "n_scenarios": len(scenarios),
-        "nontrivial": counters.get("scenarios_run", 0) > 0 and counters.get("comparisons", 0) + counters.get("writes", 0) + counters.get("ops_checked", 0) > 0,
+        "nontrivial": counters.get("scenarios_run", 0) > 0 and counters.get("comparisons", 0) + counters.get("writes", 0) + counters.get("ops_checked", 0) > 0
+                      and any(k.startswith("fault.") for k in counters),
     }
     if info["stage"] == "rejected":
         out["rejected"] = info.get("message", "")[:500]
@@ -713,7 +757,7 @@ def main(args):
         "distinct_nontrivial": len(digests),
         "rule": "one evaluation = one generated protocol module (seeded, swarm-varied features), compiled by the real compiler, built with "
                 "clang++ -fsanitize=address,undefined, and driven through its scenarios (operation scripts on exact, poisoned buffers); "
-                "non-trivial = the driver built and at least one oracle comparison was made; distinct = distinct SHA-256 of (module features, build, counters, failures)",
+                "non-trivial = the driver built, at least one fault fired and at least one oracle comparison was made; distinct = distinct SHA-256 of (module features, build, counters, failures)",
         "samples": samples,
         "modules_built": len(built), "modules_rejected_by_compiler": len(rejected),
         "scenarios_run": counters.get("scenarios_run", 0),
